@@ -1,7 +1,7 @@
 (* C04 -- property theorems only.  Proofs live in C04/Proofs*.v. *)
 From Coq Require Import NArith Arith List Bool.
 From DV Require Import Base.Outcome Base.Bytes Base.Lex Base.Names Base.PName C04.Gen C04.Model
-  C04.ProofsLabel C04.ProofsIter C04.ProofsRepr C04.ProofsData C04.ProofsParsed C04.ProofsEmbed C04.ProofsOrder C04.ProofsCompressed.
+  C04.ProofsLabel C04.ProofsIter C04.ProofsRepr C04.ProofsData C04.ProofsParsed C04.ProofsEmbed C04.ProofsOrder C04.ProofsCompressed C04.ProofsTyped.
 Import ListNotations.
 Local Open Scope N_scope.
 
@@ -201,6 +201,38 @@ Theorem C04_naptr_canonical_bytewise : forall o1 p1 f1 s1 r1 n1 o2 p2 f2 s2 r2 n
 Proof. exact naptr_canonical_bytewise. Qed.
 Print Assumptions C04_naptr_canonical_bytewise.
 
+Theorem C04_tsig_canonical_bytewise : forall a1 t1 f1 m1 i1 e1 o1 a2 t2 f2 m2 i2 e2 o2, valid_abs a1 -> valid_abs a2 -> N.of_nat (length m1) <= 65535 -> N.of_nat (length o1) <= 65535 -> N.of_nat (length m2) <= 65535 -> N.of_nat (length o2) <= 65535 -> fields_cmp (rd_tsig a1 t1 f1 m1 i1 e1 o1) (rd_tsig a2 t2 f2 m2 i2 e2 o2) = Ok (lex_cmp (fields_enc (rd_tsig a1 t1 f1 m1 i1 e1 o1)) (fields_enc (rd_tsig a2 t2 f2 m2 i2 e2 o2))).
+Proof. exact tsig_canonical_bytewise. Qed.
+Print Assumptions C04_tsig_canonical_bytewise.
+
+Theorem C04_opt_canonical_bytewise : forall o1 o2, fields_cmp (rd_opt o1) (rd_opt o2) = Ok (lex_cmp (fields_enc (rd_opt o1)) (fields_enc (rd_opt o2))).
+Proof. exact opt_canonical_bytewise. Qed.
+Print Assumptions C04_opt_canonical_bytewise.
+
+Theorem C04_ipseckey_addr_canonical_bytewise : forall p1 g1 a1 d1 k1 p2 g2 a2 d2 k2, length d1 = length d2 -> fields_cmp (rd_ipseckey_addr p1 g1 a1 d1 k1) (rd_ipseckey_addr p2 g2 a2 d2 k2) = Ok (lex_cmp (fields_enc (rd_ipseckey_addr p1 g1 a1 d1 k1)) (fields_enc (rd_ipseckey_addr p2 g2 a2 d2 k2))).
+Proof. exact ipseckey_addr_canonical_bytewise. Qed.
+Print Assumptions C04_ipseckey_addr_canonical_bytewise.
+
+Theorem C04_rd_table_ok : forallb (fun cr => row_ok (snd cr)) rd_table = true.
+Proof. exact rd_table_ok. Qed.
+Print Assumptions C04_rd_table_ok.
+
+Theorem C04_rd_eq_hash : forall code r a b, rd_lookup rd_table code = Some r -> rd_eq (row_eq r) a b = true -> rd_hash code (row_hash r) a = rd_hash code (row_hash r) b.
+Proof. exact rd_eq_hash. Qed.
+Print Assumptions C04_rd_eq_hash.
+
+Theorem C04_c04_rd_eq_hash : forall code a b, c04_rd_eq code a b = Some true -> c04_rd_hash code a = c04_rd_hash code b.
+Proof. exact c04_rd_eq_hash. Qed.
+Print Assumptions C04_c04_rd_eq_hash.
+
+Theorem C04_rd_eq_sym : forall e a b, rd_eq e a b = rd_eq e b a.
+Proof. exact rd_eq_sym. Qed.
+Print Assumptions C04_rd_eq_sym.
+
+Theorem C04_rd_canonical_bytewise : forall code r a b, rd_lookup rd_table code = Some r -> map fv_kind a = row_kinds r -> map fv_kind b = row_kinds r -> Forall fv_ok a -> Forall fv_ok b -> rd_canonical_cmp (row_canonical r) a b = Ok (lex_cmp (rd_enc a) (rd_enc b)).
+Proof. exact rd_canonical_bytewise. Qed.
+Print Assumptions C04_rd_canonical_bytewise.
+
 Theorem C04_nsec_canonical_bytewise : forall vs n1 t1 n2 t2, valid_abs n1 -> valid_abs n2 -> ~ nsec_self_compare vs t1 t2 -> nsec_canonical_cmp_gen vs n1 t1 n2 t2 = Ok (lex_cmp (nsec_enc n1 t1) (nsec_enc n2 t2)).
 Proof. exact nsec_canonical_bytewise. Qed.
 Print Assumptions C04_nsec_canonical_bytewise.
@@ -296,6 +328,22 @@ Print Assumptions C04_record_canonical_eq_subst.
 Theorem C04_record_canonical_eq_iff : forall a b, m_record_canonical_cmp a b = Eq <-> r_class a = r_class b /\ name_eqb (r_owner a) (r_owner b) = true /\ r_rtype a = r_rtype b /\ r_rdata a = r_rdata b.
 Proof. exact record_canonical_eq_iff. Qed.
 Print Assumptions C04_record_canonical_eq_iff.
+
+Theorem C04_header_cmp_trans : forall a b c o, m_header_cmp a b = o -> m_header_cmp b c = o -> m_header_cmp a c = o.
+Proof. exact header_cmp_trans. Qed.
+Print Assumptions C04_header_cmp_trans.
+
+Theorem C04_header_cmp_antisym : forall a b, m_header_cmp b a = CompOpp (m_header_cmp a b).
+Proof. exact header_cmp_antisym. Qed.
+Print Assumptions C04_header_cmp_antisym.
+
+Theorem C04_header_cmp_eq_iff : forall a b, m_header_cmp a b = Eq <-> m_header_eqb a b = true.
+Proof. exact header_cmp_eq_iff. Qed.
+Print Assumptions C04_header_cmp_eq_iff.
+
+Theorem C04_parsed_record_eq_equiv : (forall a d, m_parsed_record_eq a d a d = true) /\ (forall a d b e, m_parsed_record_eq a d b e = m_parsed_record_eq b e a d) /\ (forall a d b e c f, m_parsed_record_eq a d b e = true -> m_parsed_record_eq b e c f = true -> m_parsed_record_eq a d c f = true).
+Proof. exact parsed_record_eq_equiv. Qed.
+Print Assumptions C04_parsed_record_eq_equiv.
 
 Theorem C04_record_order_is_not_wire_order : exists a b, m_record_canonical_cmp a b = Gt /\ lex_cmp (record_wire a) (record_wire b) = Lt.
 Proof. exact record_order_is_not_wire_order. Qed.
